@@ -4,11 +4,12 @@ pub mod common;
 pub mod c01;
 pub mod c05;
 pub mod c06;
+pub mod c10;
 pub mod c11;
 pub mod c12;
 
 pub fn all() -> Vec<&'static CheckDef> {
-    vec![&c01::DEF, &c01::DEF_C02, &c05::DEF, &c06::DEF, &c12::DEF, &c11::DEF]
+    vec![&c01::DEF, &c01::DEF_C02, &c05::DEF, &c06::DEF, &c12::DEF, &c11::DEF, &c10::DEF]
 }
 
 pub fn find(id: &str) -> Option<&'static CheckDef> {
